@@ -283,7 +283,9 @@ def run(tier, replay=None):
     rep.floor('printer sentences', n, 100)
     validators.run_all(prog, rep)
     subtag_api.run(prog, rep)
-    c10.mutator_obligations(rep, cfgs=('K0',), with_getters=False)
+    c10.mutator_obligations(rep, cfgs=('K0', 'K1'), with_getters=False)
+    from . import tables
+    tables.likely(common.program('K1'), rep)      # maximize/minimize results are table text: it must be canonical to survive the trip
     core = entry.core_parser(prog)
     disp = entry.find_method(prog, 'unic_locale_impl', 'ExtensionsMap', 'try_from_iter')
     c13.exhausted_dispatch(prog, rep, disp)
